@@ -9,6 +9,7 @@ import Chokan.Model.Runtime
 import Chokan.Model.Server
 import Chokan.Lemmas.Conc
 import Chokan.Lemmas.Fine
+import Chokan.Lemmas.FineSess
 
 namespace Chokan.Props.C14
 open Chokan.Runtime Chokan.Gen.Server
@@ -326,5 +327,21 @@ theorem C14_fine_isolation (c : Chokan.Server.Cfg) (reqs : List (List Ev × Req)
     · intro ps hps p hp
       exact List.all_eq_true.1 (List.all_eq_true.1 hgt ps hps) p hp
   exact isolated hinv hg i j ti tj hi hj hij l hl b r hr
+
+
+open Chokan.Conc Chokan.Fine Chokan.Server in
+/-- **Under every interleaving (model with data): a registered entry is never half-visible and every answer is
+sequential.**  One step of any thread leaves the running dictionary alone or merges *all* conjugated forms of one entry;
+and what a conversion thread computes is `getCandidates` on the dictionary and the learned counts of the very state its
+compute event runs in (it holds both locks: `C14_fine_shapes`, `C14_fine_isolation`), changing nothing. -/
+theorem C14_fine_whole_entries_and_sequential_answers (c : Cfg) (d : FSt) (ik : Nat × Nat) :
+    ((fstep c d ik).data.dict = d.data.dict ∨
+      ∃ en, (fstep c d ik).data.dict = (mergeEntry c d.data.dict en).getD d.data.dict) ∧
+    (∀ (l : Fine.Local) (ctx : Chokan.Kkc.Ctx) (input : Chokan.Dic.Str), headEv d.st ik.1 = some (.act .compute) →
+      d.locals[ik.1]? = some l → l.req = Req.conv ctx input →
+      ∃ l', (fstep c d ik).locals[ik.1]? = some l' ∧
+        l'.cands = (Chokan.Kkc.getCandidates c.tables input d.data.dict ctx (toKkcFreq d.data.freq) c.nCandidates c.fuel).getD [] ∧
+        (fstep c d ik).data = d.data) :=
+  ⟨fstep_dict c d ik, fun l ctx input hh hl hr => fstep_compute c d ik.1 ik.2 l ctx input hh hl hr⟩
 
 end Chokan.Props.C14
